@@ -25,11 +25,79 @@ def run(r):
     w = r.model_check('H5StoreMC', 'H5Store_asis_d5.cfg', expect_violation='LenIsAccepted')
     r.extra['asis_witness_D5'] = [core.tlaval.to_json(s_['last']) for _, s_ in w.trace]
     drv.cleanup()
+    code_to_spec(r, thorough)
     r.assumptions += ['detector of 2 antennas; data carry tags; only rows addressed by the index are compared',
                       'h5py flush + file copy gives a consistent snapshot while the writer is open']
 
 
+DEF = dict(options={'write': [], 'trigOnly': []}, fresh=False, n=0, np=0, trig=False, form='', nw=0, nr=0, rays='', pbad=False,
+           res='', exc='', nev=0, tables=[], idx=[], what='')
+
+
+def code_to_spec(r, thorough):
+    """traces of real writers -- the repository's own tests and an independent random workload -- validated by TLC"""
+    import json
+    import os
+    import subprocess
+    import sys
+    from vlib import tracecheck
+    tree = os.environ.get('PYREX_TREE', '/repo')
+    out = os.path.join(tlc.WORK, 'C11', 'repo_traces.json')
+    os.makedirs(os.path.dirname(out), exist_ok=True)
+    env = dict(os.environ, H5TRACE_OUT=out, PYTHONPATH='%s:%s' % (tree, os.path.join(tlc.VERIF, 'harness')))
+    p = subprocess.run([sys.executable, '-m', 'pytest', '-q', '-p', 'no:cacheprovider', '-p', 'recorders.h5trace_plugin',
+                        'tests/test_io.py', 'tests/test_generation.py', 'tests/test_kernel.py'], cwd=tree, env=env,
+                       stdout=subprocess.PIPE, stderr=subprocess.STDOUT, text=True, timeout=1800)
+    raw = json.load(open(out)) if os.path.exists(out) else []
+    if not raw:
+        raise tlc.TLCError('no writer traces recorded from the repository tests:\n' + p.stdout[-1500:])
+    r.extra['repo_tests_outcome'] = p.stdout.strip().split('\n')[-1]
+    # independent random workload, recorded in-process
+    from recorders import h5trace_plugin, h5_random
+    h5trace_plugin.install()
+    h5trace_plugin.reset()
+    h5_random.run(400 if thorough else 60, r.seed + 111, os.path.join(tlc.WORK, 'C11', 'random'))
+    raw2 = json.loads(json.dumps(h5trace_plugin.collected()))
+    for origin, traces in (('repository tests', raw), ('random workload', raw2)):
+        byfile = {}
+        for t in traces:
+            for e in t['events']:
+                if e['ev'] == 'Open':
+                    e['options'] = t['options']
+            byfile.setdefault(t['file'], []).append(t)
+        batch, names = [], []
+        skipped = 0
+        for f, ts in byfile.items():
+            if any(t.get('analysis_indices') for t in ts):
+                skipped += 1          # index rows written through add_analysis_indices: outside the model
+                continue
+            evs = [e for t in ts for e in t['events']]
+            batch.append({'events': [dict(DEF, **{k: v for k, v in e.items() if v is not None}) for e in evs]})
+            names.append(f)
+        verdicts, res = tracecheck.validate('TraceH5Store', 'TraceH5Store.cfg', batch, 'C11/trace')
+        r.states += res.distinct
+        r.transitions += res.generated
+        adds = sum(1 for b in batch for e in b['events'] if e['ev'] == 'Add')
+        r.extra['code_to_spec_' + origin.replace(' ', '_')] = {'files': len(batch), 'add_calls': adds, 'skipped_analysis_files': skipped}
+        for name, b, (reached, needed) in zip(names, batch, verdicts):
+            if reached == needed:
+                r.traces += 1
+                continue
+            nxt = b['events'][reached]
+            path = r.write_replay({'kind': 'trace', 'origin': origin, 'file': name, 'matched': reached,
+                                   'rejected_event': nxt, 'events': b['events']})
+            r.violation(path, 'recorded writer trace (%s) rejected by TraceH5Store at event %d of %d: %s' % (
+                origin, reached + 1, needed, json.dumps({k: v for k, v in nxt.items() if v not in ('', [], 0, False) or k == 'ev'})[:300]))
+        if len(r.samples) < 4 and batch:
+            r.samples.append({'origin': 'recorded writer trace (%s)' % origin,
+                              'events': [{k: v for k, v in e.items() if v not in ('', [], 0, False) or k == 'ev'} for e in batch[0]['events'][:6]]})
+
+
 def replay(r, path):
+    import json as _json
+    if _json.load(open(path)).get('kind') == 'trace':
+        print('recorded-trace rejection: re-run bin/check C11 (traces are re-recorded from the current tree)')
+        return 1
     obj, beh = core.load_replay(path)
     ok = r.replay_one(H5Driver(level='full', tag='C11'), beh, 'H5Store', 'replay-file')
     print('replay %s: %s' % (path, 'no divergence' if ok else 'DIVERGENCE'))
